@@ -173,8 +173,8 @@ class IkeSaController:
                     conn.sendall(json.dumps(result).encode())
                     conn.close()
 
-                # check retransmissions
-                for ikesa in self.ike_sas:
+                # check retransmissions (over a copy: closed IKE_SAs are removed from the table on the way)
+                for ikesa in list(self.ike_sas):
                     request_data = ikesa.check_retransmission_timer()
                     if request_data:
                         dst_addr = (str(ikesa.peer_addr), 500)
